@@ -95,15 +95,20 @@ package transactions
 
 // ---- retry transaction ----
 //@ pred retryWF(t *RetryTransaction) = t.TransactionBase != nil && t.TransactionBase.done != nil
-//@ pred retryInv(t *RetryTransaction) = retryWF(t) && t.retryCallback != nil && t.retryCount < 0xFFFFFFFFFFFFFFFF &&
-//@      (t.retryNum <= t.retryCount || finished(t.TransactionBase)) && t.retryCallback != t.TransactionBase.finally
+// retryCfg: the part of the invariant that never changes after construction.
+//@ pred retryCfg(t *RetryTransaction) = retryWF(t) && t.retryCallback != nil && t.retryCount < 0xFFFFFFFFFFFFFFFF &&
+//@      t.retryCallback != t.TransactionBase.finally
+//@ pred retryInv(t *RetryTransaction) = retryCfg(t) && (t.retryNum <= t.retryCount || finished(t.TransactionBase))
+// The transaction (of another package) this retry transaction is embedded in, if it records one.
+//@ ghost RetryTransaction.owner iface
 
 //@ func NewRetryTransaction
 //@   nopanic [C18,C19]
 //@   requires [C19] cfg: retryCallback != nil && retryCount < 0xFFFFFFFFFFFFFFFF && retryCallback != finally // distinct Go types, hence distinct function values
 //@   ensures [C19] init: fresh(result) && retryInv(result) && result.retryNum == 0 && result.timer == nil &&
 //@      !finished(result.TransactionBase) && result.retryDelay == retryDelay && result.retryCount == retryCount &&
-//@      result.retryCallback == retryCallback && result.TransactionBase.finally == finally && result.TransactionBase.err == nil
+//@      result.retryCallback == retryCallback && result.TransactionBase.finally == finally && result.TransactionBase.err == nil &&
+//@      result.State == nil && result.Data == nil && fresh(result.TransactionBase) && fresh(result.TransactionBase.done)
 
 //@ func (*RetryTransaction).stopTimer
 //@   nopanic [C18]
@@ -118,12 +123,12 @@ package transactions
 
 //@ func (*RetryTransaction).Proceed
 //@   nopanic [C18,C19]
-//@   requires [C19] inv: retryInv(t)
+//@   requires [C19] inv: retryCfg(t)
 //@   guarded [C18] retryNumMutex: retryNum, State, Data
 //@   assigns t.State, t.Data, t.retryNum, t.timer, armed(t.timer)
 //@   ensures [C19] keeps_inv: retryInv(t)
 //@   ensures [C19] budget_reset: t.retryNum == 0 && t.State == state && t.Data == data
-//@   ensures [C19] rearmed: armed(t.timer) && armedDelay(t.timer) == int64(t.retryDelay) && !armed(old(t.timer))
+//@   ensures [C19] rearmed: fresh(t.timer) && armed(t.timer) && armedDelay(t.timer) == int64(t.retryDelay) && !armed(old(t.timer))
 
 //@ func (*RetryTransaction).Success
 //@   nopanic [C18]
